@@ -16,7 +16,7 @@ from oracles import ref
 LEVEL = "exploration"
 RULE = ("all multisets of size N in {2,3,4,6} over the log-weight alphabet {0,-0.5,-3,-30,-1e3,-1e5,+2} x beta_prev in "
         "{0,0.25,0.9,1-1e-7} x target in {0.1,0.5,0.9,0.999,ramp(0.3,0.8) rate 1 and 2} x tolerance in {1e-6,1e-3,0.1} x "
-        "floor in {0,0.2}, each passed to the real SMCSampler.determine_beta; plus every adaptive step of the runs explored "
+        "floor in {0,0.2}, each passed to the real SMCSampler.determine_beta; plus every adaptive step of continuous 2-D runs, fresh and resumed from every checkpoint (scalar and ramped targets), and of the runs explored "
         "by the schedule harness (<=2 deviations). Oracle uses the lemma that ESS is non-increasing in the step: "
         "ESS(beta_new)/N >= target-1e-9 (unless forced by the floor) and (beta_new==1 or ESS(min(1,beta_new+tol))/N < target+1e-9). "
         "non-trivial = population not constant and the ESS curve crosses the target strictly inside (beta_prev, 1)")
@@ -159,6 +159,43 @@ def as_run(cfg):
     return r.dump()
 
 
+def as_run_resumed(cfg):
+    """The same post-condition on every step of runs resumed from every checkpoint (continuous 2-D problem)."""
+    from env import resume_harness as rh
+
+    r = Report()
+    R = rh.run(cfg)
+    o = cfg["opts"]
+    te = o.get("target_efficiency", 0.5)
+    target = (tuple(te), o.get("target_efficiency_rate", 1.0)) if isinstance(te, (tuple, list)) else te
+    floor = o.get("min_step") or 0.0
+
+    def check(run, stage):
+        if run.exception is not None or run.history is None:
+            return
+        betas = run.history["beta"]
+        sh = run.history["sample_history"]
+        for t in range(min(len(betas), len(sh))):
+            prev = 0.0 if t == 0 else betas[t - 1]
+            a = (sh[t]["L"] + sh[t]["P"] - sh[t]["Q"]).tolist()
+            tv = target_in_force(target, prev)
+            case = {"resumed": True, "cfg": cfg, "stage": stage, "step": t}
+            r.case(explorer.digest([cfg, stage, t]), nontrivial=len(set(a)) > 1 and eff_ref(a, 1.0 - prev) < tv)
+            for b in post_condition(a, prev, betas[t], tv, 1e-6, floor):
+                r.violation(f"C07/as-run/{b}/{'resumed' if stage != 'fresh' else 'fresh'}",
+                            {"beta_prev": prev, "beta_new": betas[t], "target_value": tv, "eff": eff_ref(a, betas[t] - prev)}, case)
+
+    check(R, "fresh")
+    seen = set()
+    for it, payload in R.sink:
+        if it in seen:
+            continue
+        seen.add(it)
+        check(rh.run(cfg, resume_from=payload), f"resumed-from-{it}")
+    r.sample({"resumed": True, "cfg": cfg})
+    return r.dump()
+
+
 def populations(tier):
     pops = []
     for n in (2, 3, 4, 6):
@@ -194,11 +231,30 @@ def run(tier, seed, workers):
     for d in pmap("checks.c07", "as_run", cfgs, workers):
         rep.merge(d)
     rep.count("as_run_configs", len(cfgs))
+    rcfgs = []
+    for sampler in ("smc", "emcee_smc"):
+        for opts in ({"adaptive": True, "target_efficiency": 0.8}, {"adaptive": True, "target_efficiency": (0.3, 0.9)},
+                     {"adaptive": True, "target_efficiency": (0.5, 0.9), "target_efficiency_rate": 2.0},
+                     {"adaptive": True, "target_efficiency": 0.9, "min_step": 0.15}):
+            if sampler == "emcee_smc" and "min_step" in opts:
+                continue
+            for sd in sorted({0, seed}):
+                rcfgs.append({"sampler": sampler, "N": 8, "opts": opts, "cadence": 1, "n_final": None, "precond": "none", "seed": sd})
+    for d in pmap("checks.c07", "as_run_resumed", rcfgs, workers):
+        rep.merge(d)
+    rep.count("resumed_as_run_configs", len(rcfgs))
     return rep
 
 
 def replay(case):
     r = Report()
+    if case.get("resumed"):
+        cfg = case["cfg"]
+        te = cfg["opts"].get("target_efficiency")
+        if isinstance(te, list):
+            cfg["opts"]["target_efficiency"] = tuple(te)
+        r.merge(as_run_resumed(cfg))
+        return r
     if "cfg" in case:
         from checks.c06 import _fix
 
